@@ -35,10 +35,16 @@ def main(chk):
     rng = random.Random(chk.seed)
     q = chk.quick
     nc = 2 if q else 3
-    d = 4 if q else 5
-    configs = [dict(name=n, casc=n, consts=oc.consts(n, nc, dd, acts=ACTS), invs=INVS, props=PROPS, maxlen=dd, nrandom=60 if q else 600)
-               for n, dd in (("orphan", d), ("all", d - 1), ("delete", d - 1), ("default", d - 1), ("none", d - 1))]
-    deep = [dict(name="deep-" + n, casc=n, consts=oc.consts(n, 2, 5 if q else 6, acts=ACTS), invs=INVS, props=PROPS) for n in ("orphan", "all")]
+    nr = 60 if q else 600
+    mk = lambda name, casc, n, dd: dict(name=name, casc=casc, consts=oc.consts(casc, n, dd, acts=ACTS), invs=INVS, props=PROPS, maxlen=dd, nrandom=nr)
+    if q:
+        configs = [mk("orphan", "orphan", 2, 4), mk("all", "all", 2, 3), mk("delete", "delete", 2, 3), mk("default", "default", 2, 3), mk("none", "none", 2, 3)]
+        deep = [dict(name="deep-" + n, casc=n, consts=oc.consts(n, 2, 5, acts=ACTS), invs=INVS, props=PROPS) for n in ("orphan", "all")]
+    else:
+        configs = [mk("orphan-2x3", "orphan", 3, 4), mk("all-2x3", "all", 3, 4), mk("orphan-2x2", "orphan", 2, 5), mk("delete-2x2", "delete", 2, 4),
+                   mk("default-2x2", "default", 2, 4), mk("none-2x2", "none", 2, 4)]
+        deep = [dict(name="deep-%s-2x3" % n, casc=n, consts=oc.consts(n, 3, 5, acts=ACTS), invs=INVS, props=PROPS) for n in ("orphan", "all")] + \
+               [dict(name="deep-%s-2x2" % n, casc=n, consts=oc.consts(n, 2, 6, acts=ACTS), invs=INVS, props=PROPS) for n in ("delete", "default", "none")]
     what = ("re-associating a child that has no row yet under delete-orphan throws it out of the session: the backref's removal from the old "
             "parent fires the delete-orphan listener, which expunges the pending child although it is being moved to another parent "
             "(c.parent = p2 / p2.children.append(c) with c pending in p1.children): c ends transient inside p2.children and is not inserted "
